@@ -53,6 +53,10 @@ class PopenFuture(concurrent.futures.Future):
         self.start_time = None
         self.end_time = None
         self._exception = None
+        # cancel() may race with the worker thread that has not reached Popen() yet:
+        # the flag is set, and checked right before Popen(), under this lock
+        self._start_lock = threading.Lock()
+        self._cancel_requested = False
 
     def start(self):
         """Starts the subprocess and immediately returns."""
@@ -60,7 +64,11 @@ class PopenFuture(concurrent.futures.Future):
         def run():
             try:
                 self.start_time = time.time()
-                self.process = Popen(self.cmd, stdout=PIPE, stderr=PIPE, text=True)
+                with self._start_lock:
+                    if self._cancel_requested:
+                        # cancelled before the process was started: never start it
+                        raise ShutdownError()
+                    self.process = Popen(self.cmd, stdout=PIPE, stderr=PIPE, text=True)
 
                 # blocks until the process terminates
                 self.stdout, self.stderr = self.process.communicate(
@@ -89,6 +97,9 @@ class PopenFuture(concurrent.futures.Future):
 
     def cancel(self):
         """Attempts to terminate and then kill the process and its children."""
+        with self._start_lock:
+            self._cancel_requested = True
+
         if not self.is_running():
             return
 
